@@ -126,10 +126,7 @@ class KeySet:
         for key in self.keys:
             # trigger key to generate kid via thumbprint
             key.ensure_kid()
-            if isinstance(key, OctKey):
-                keys.append(key.as_dict(**params))
-            else:
-                keys.append(key.as_dict(private=private, **params))
+            keys.append(key.as_dict(private=private, **params))
         return {"keys": keys}
 
     def get_by_kid(self, kid: str | None = None) -> Key:
